@@ -39,6 +39,8 @@ def scenarios(tier):
         # wide subgrid (7 x 4 cells), both particles in symbolic cells of the valid region: per-particle bookkeeping keyed on cell indices
         out.append(dict(name="interp-N2-two-particles-wide", fn="interp", params=dict(N=2, sub=[1, 8, 1, 5], packed=False, two="cells", LM=(9, 6)), cost=60))
     out.append(dict(name="packed", fn="interp", params=dict(N=2, sub=[1, 6, 1, 5], packed=True), cost=20))
+    out.append(dict(name="packed-scale-only", fn="interp", params=dict(N=2, sub=[1, 6, 1, 5], packed="scale-only"), cost=20))
+    out.append(dict(name="packed-v-only", fn="interp", params=dict(N=2, sub=[1, 6, 1, 5], packed="v-only"), cost=20))
     out.append(dict(name="packed-second-file", fn="interp", params=dict(N=2, sub=[1, 6, 1, 5], packed=True, twofiles=True), cost=25))
     out.append(dict(name="linear", fn="linear", params=dict(N=2, sub=[1, 6, 1, 5]), cost=10))
     return out
@@ -92,6 +94,10 @@ def _setup(W, p, fields=None, mask_all_sea=False):
     if p.get("packed"):
         su, sv, sT, oT = W.real("scale_u", W.frac(1, 1000), 1), W.real("scale_v", W.frac(1, 1000), 1), W.real("scale_T", W.frac(1, 1000), 1), W.real("offset_T", -5, 5)
         scale, offs = dict(u=su, v=sv, temp=sT), dict(u=0, v=0, temp=oT)
+        if p["packed"] == "scale-only":
+            offs = dict(u=None, v=None, temp=oT)  # scale_factor without an add_offset attribute
+        elif p["packed"] == "v-only":
+            scale, offs = dict(v=sv, temp=sT), dict(v=0, temp=oT)  # u stored as float, v packed
     forcing_name = str(tmp / "ocean.nc")
     if p.get("twofiles"):
         # the sampled (symbolic) frame lives in the SECOND file, which has its own packing; the first file (frame at the
@@ -222,8 +228,8 @@ def _oracle(W, p, N, x, y, zp, ci, cj, z, u, v, temp, mask, scale, offs):
     def vface(g, i):
         return sea(g, i) * sea(g + 1, i)
 
-    su = scale["u"] if scale else 1
-    sv = scale["v"] if scale else 1
+    su = scale.get("u", 1) if scale else 1
+    sv = scale.get("v", 1) if scale else 1
     gu = _floor(W, x - W.frac(1, 2))
     pu = x - W.frac(1, 2) - gu
     ju = _floor(W, y)
